@@ -250,9 +250,11 @@ public:
             const XalanDOMChar*     theChars,
             size_type               theLength)
     {
+        // A surrogate pair is one character: it is representable or gets
+        // one numeric character reference, not one per code unit.
         for(size_type i = 0; i < theLength; ++i)
         {
-            write(theChars[i]);
+            i = write(theChars, i, theLength, m_charRefFunctor);
         }
     }
 
